@@ -8,10 +8,17 @@ for p in sorted(glob.glob('/verif/seeded/*/meta.json')):
         why = 'stale (code it changes was rewritten)' if m.get('stale') else 'superseded (a later repair made the change harmless)'
         rows.append((n, m.get('repo_head', '?'), 'not applicable to HEAD', why)); continue
     c = m['checks'].get(m['property'], {})
-    rows.append((n, m.get('repo_head', '?'), 'caught' if c.get('exit') == 1 else 'MISSED', c.get('first', '')[:110].replace('|', '\\|')))
+    verdict = 'caught' if c.get('exit') == 1 else 'MISSED'
+    if verdict == 'MISSED':
+        # the change was written against one property, but what it breaks is another property's subject
+        for other, oc in sorted(m['checks'].items()):
+            if oc.get('exit') == 1:
+                verdict, c = 'caught by ' + other, oc
+                break
+    rows.append((n, m.get('repo_head', '?'), verdict, c.get('first', '')[:110].replace('|', '\\|')))
 with open('/verif/seeded/RESULTS.md', 'w') as f:
     f.write("# Seeded changes: verdict of the property's quick check (tools/seedall.sh)\n\n")
-    f.write("%d changes kept; %d caught, %d missed, %d not applicable to /repo's HEAD.\n\n" % (len(rows), sum(r[2] == 'caught' for r in rows), sum(r[2] == 'MISSED' for r in rows), sum(r[2].startswith('not') for r in rows)))
+    f.write("%d changes kept; %d caught, %d missed, %d not applicable to /repo's HEAD.\n\n" % (len(rows), sum(r[2].startswith('caught') for r in rows), sum(r[2] == 'MISSED' for r in rows), sum(r[2].startswith('not') for r in rows)))
     f.write("| Change | evaluated at /repo | verdict | first discrepancy / note |\n|---|---|---|---|\n")
     for r in rows:
         f.write("| %s | %s | %s | %s |\n" % r)
